@@ -194,9 +194,31 @@ func checkLongestArgmax(p *load.Program, r *kit.Report, workF *types.Var) {
 	fromElem := func(v ssa.Value) bool {
 		return kit.DependsOnNoPhi(v, func(x ssa.Value) bool { return isElem(x) }) && loadOfField(v, workF)
 	}
+	// the phi an incumbent operand is read from: the *HeaderData (or *big.Int) carried next to the
+	// selection
+	var companion *ssa.Phi
 	fromPhi := func(v ssa.Value) bool {
-		return loadOfField(v, workF) && kit.DependsOnNoPhi(v, func(x ssa.Value) bool { _, ok := x.(*ssa.Phi); return ok }) &&
-			!kit.DependsOnNoPhi(v, func(x ssa.Value) bool { return isElem(x) })
+		if kit.DependsOnNoPhi(v, func(x ssa.Value) bool { return isElem(x) }) {
+			return false
+		}
+		var found *ssa.Phi
+		kit.DependsOnNoPhi(v, func(x ssa.Value) bool {
+			if ph, ok := x.(*ssa.Phi); ok && found == nil {
+				found = ph
+			}
+			return false
+		})
+		if ph, ok := kit.Strip(v).(*ssa.Phi); ok {
+			found = ph
+		}
+		if found == nil {
+			return false
+		}
+		if !loadOfField(v, workF) && !strings.HasSuffix(found.Type().String(), "big.Int") {
+			return false
+		}
+		companion = found
+		return true
 	}
 	recv, arg := cmp.Call.Args[0], cmp.Call.Args[1]
 	var candIsRecv bool
@@ -345,6 +367,60 @@ func checkLongestArgmax(p *load.Program, r *kit.Report, workF *types.Var) {
 			}
 		}
 	}
+	// the work compared against is the work of the current selection: wherever an element becomes
+	// the selection, the value carried next to it is derived from the same element
+	if ok && companion != nil {
+		type cinst struct {
+			v    ssa.Value
+			pred *ssa.BasicBlock
+			blk  *ssa.BasicBlock
+		}
+		var cins []cinst
+		cweb := map[*ssa.Phi]bool{}
+		var cwalk func(ph *ssa.Phi)
+		cwalk = func(ph *ssa.Phi) {
+			if cweb[ph] {
+				return
+			}
+			cweb[ph] = true
+			for i, e := range ph.Edges {
+				if ip, isPhi := e.(*ssa.Phi); isPhi {
+					cwalk(ip)
+					continue
+				}
+				cins = append(cins, cinst{e, ph.Block().Preds[i], ph.Block()})
+			}
+		}
+		cwalk(companion)
+		elemAddr := func(v ssa.Value) *ssa.IndexAddr {
+			var ia *ssa.IndexAddr
+			kit.DependsOnNoPhi(v, func(x ssa.Value) bool {
+				if isElem(x) && ia == nil {
+					ia = x.(*ssa.UnOp).X.(*ssa.IndexAddr)
+				}
+				return false
+			})
+			return ia
+		}
+		for _, in := range installs {
+			if !isElem(in.v) {
+				continue
+			}
+			want := in.v.(*ssa.UnOp).X.(*ssa.IndexAddr)
+			matched := false
+			for _, c := range cins {
+				if c.pred != in.pred {
+					continue
+				}
+				if got := elemAddr(c.v); got != nil && kit.Strip(got.X) == kit.Strip(want.X) && sameIndex(got.Index, want.Index) {
+					matched = true
+				}
+			}
+			if !matched {
+				ok, why = false, "the work the candidates are compared with is not updated together with the selection (it can belong to another branch)"
+			}
+		}
+	}
 	// the candidates are all elements: bs[i] for i from 0 (1 when seeded with bs[0]) in steps of 1
 	// while i < len(bs)
 	if ok {
@@ -354,6 +430,17 @@ func checkLongestArgmax(p *load.Program, r *kit.Report, workF *types.Var) {
 	}
 	r.Check(ok, "ARGMAX", "Branches.Longest/cmp", posOf(p, cmp),
 		"candidate replaces the incumbent exactly on the greater(-or-equal)-work edge of Cmp", why)
+}
+
+// sameIndex: two index operands denote the same value (same SSA value or equal constants).
+func sameIndex(a, b ssa.Value) bool {
+	a, b = kit.Strip(a), kit.Strip(b)
+	if a == b {
+		return true
+	}
+	ka, oka := kit.ConstInt(a)
+	kb, okb := kit.ConstInt(b)
+	return oka && okb && ka == kb
 }
 
 // candidateCoverage checks the index of the candidate element compared by cmp.
@@ -374,8 +461,22 @@ func candidateCoverage(f *ssa.Function, cmp *ssa.Call, seeded bool) string {
 	if ia == nil {
 		return "the candidate is not an indexed element of the list"
 	}
-	if len(f.Params) == 0 || kit.Strip(ia.X) != ssa.Value(f.Params[0]) {
-		return "the candidates are taken from " + describe(kit.Strip(ia.X)) + ", not from the whole list"
+	if len(f.Params) == 0 {
+		return "no list parameter"
+	}
+	base := kit.Strip(ia.X)
+	low := int64(0)
+	if sl, isSl := base.(*ssa.Slice); isSl && kit.Strip(sl.X) == ssa.Value(f.Params[0]) && sl.High == nil && sl.Max == nil {
+		// bs[L:] with the first L elements handled before the loop
+		if sl.Low != nil {
+			l, isC := kit.ConstInt(sl.Low)
+			if !isC {
+				return "the candidates are taken from a part of the list with a computed start"
+			}
+			low = l
+		}
+	} else if base != ssa.Value(f.Params[0]) {
+		return "the candidates are taken from " + describe(base) + ", not from the whole list"
 	}
 	idx := kit.Strip(ia.Index)
 	var ph *ssa.Phi
@@ -417,7 +518,7 @@ func candidateCoverage(f *ssa.Function, cmp *ssa.Call, seeded bool) string {
 	if c, isC := kit.ConstInt(sb.Y); !isC || c != 1 {
 		return "the candidate index does not advance by one"
 	}
-	first := c0 + k
+	first := low + c0 + k
 	limit := int64(0)
 	if seeded {
 		limit = 1
@@ -433,7 +534,7 @@ func candidateCoverage(f *ssa.Function, cmp *ssa.Call, seeded bool) string {
 		}
 		isLen := func(v ssa.Value) bool {
 			call, ok := v.(*ssa.Call)
-			return ok && kit.CallID(call) == "builtin.len" && kit.Strip(call.Call.Args[0]) == ssa.Value(f.Params[0])
+			return ok && kit.CallID(call) == "builtin.len" && kit.Strip(call.Call.Args[0]) == base
 		}
 		switch {
 		case b.Op == token.LSS && kit.Strip(b.X) == idx && isLen(b.Y):
@@ -670,7 +771,7 @@ func checkWorkFlow(p *load.Program, r *kit.Report, funcs []*ssa.Function, workF 
 			continue
 		}
 		v := stored[0]
-		a, isAlloc := kit.Strip(v).(*ssa.Alloc)
+		a, isAlloc := bigArg(v).(*ssa.Alloc)
 		why := ""
 		if !isAlloc {
 			why = "stored work is not a big.Int allocated in this function (" + describe(v) + ")"
